@@ -32,7 +32,7 @@ ANCHORS = [
     "acnportal.acnsim.interface:Interface.is_feasible",
     "acnportal.algorithms.utils:infrastructure_constraints_feasible",
 ]
-REQUIRED = ["cases_whose_event_batch_fails_part_way_and_is_completed_by_hand", "rel:rebuild", "rel:stations", "rel:constraints", "rel:sessions", "rel:all", "rel:shift", "sched:scripted",
+REQUIRED = ["cases_whose_event_batch_fails_part_way_and_is_completed_by_hand", "cases_with_astronomically_large_demands", "rel:rebuild", "rel:stations", "rel:constraints", "rel:sessions", "rel:all", "rel:shift", "sched:scripted",
             "sched:uncontrolled", "sched:sorted", "sorted_runs_judged", "as_df_accessors_checked", "regime:binding-or-mixed-sign", "regime:hetero-voltage"]
 BUDGET_S = {"quick": 240, "thorough": 3000}
 
@@ -100,16 +100,35 @@ def cases(seed, tier):
              "scheduler": {"kind": "sorted", "algo": ("greedy", "rr")[i % 2], "sort": gen.SORTS[i % 5], "est": None, "unint": True, "inc": 1,
                            "seed": rng.randrange(1 << 20)}}
         out.append({"desc": d, "pseed": rng.randrange(1 << 30)})
+    # corpus: sessions whose demand is astronomically large but representable (placeholders such as 1e304 kWh for "charge as much
+    # as you can"), distinct from each other, next to an everyday one, competing for one feeder under every sort order
+    for i in range(10 if tier == "quick" else 100):
+        big = rng.sample([1e304, 5e304, 2e303, 7e304, 1e300, 3e302], 2)
+        reqs = big + [rng.choice([9, 20])]
+        stations = [{"id": f"g{k}", "evse": {"t": "EVSE", "max": 32, "min": 0}, "voltage": rng.choice([208, 240]), "phase": 0} for k in range(3)]
+        sessions = [{"id": f"y{k}", "station": f"g{k}", "arrival": k, "departure": 12 + 3 * k, "requested": reqs[k], "est_dep": 12 + 3 * k,
+                     "battery": {"t": "ideal", "cap": 1e306, "init": 0, "maxp": 1e4}} for k in range(3)]
+        d = {"period": rng.choice([5, 15]), "start": [2020, 2, 3, 9, 0], "recompute": [], "np_seed": 3,
+             "network": {"stations": stations, "constraints": [{"name": "feeder", "coeffs": {f"g{k}": 1 for k in range(3)}, "limit": 40.37}], "tol": None},
+             "sessions": sessions, "huge_demands": True,
+             "scheduler": {"kind": "sorted", "algo": ("greedy", "rr")[i % 2], "sort": gen.SORTS[i % 5], "est": None, "unint": False, "inc": 1,
+                           "seed": rng.randrange(1 << 20)}}
+        out.append({"desc": d, "pseed": rng.randrange(1 << 30)})
     return out
 
 
 class TieWatch:
     """Sort-function wrapper: detects priority ties among the sessions handed to the sort."""
 
-    def __init__(self, unint=False):
+    def __init__(self, unint=False, desc=None):
         self.tie = False
         self.calls = 0
         self.unint = unint  # uninterrupted charging reserves minimum pilots in order of remaining time: ties there matter too
+        # the keys are recomputed from the descriptor's own voltages, station maxima and period (not read back through the
+        # interface under test: a conversion that goes wrong there must not be able to declare its own victims "tied")
+        self.volt = {s_["id"]: float(s_["voltage"]) for s_ in desc["network"]["stations"]} if desc else None
+        self.smax = {s_["id"]: float(gen.evse_max(s_["evse"])) for s_ in desc["network"]["stations"]} if desc else None
+        self.period = float(desc["period"]) if desc else None
 
     def __call__(self, fn, name):
         watch = self
@@ -126,7 +145,11 @@ class TieWatch:
                 elif name == "edf":
                     keys = [float(e.estimated_departure) for e in evs]
                 else:
-                    rpt = [iface.remaining_amp_periods(e) / iface.max_pilot_signal(e.station_id) for e in evs]
+                    if watch.volt is not None and all(e.station_id in watch.volt for e in evs):
+                        rpt = [(float(e.requested_energy) - float(e.energy_delivered)) * 1000.0 / watch.volt[e.station_id] * 60.0 / watch.period
+                               / watch.smax[e.station_id] for e in evs]
+                    else:
+                        rpt = [iface.remaining_amp_periods(e) / iface.max_pilot_signal(e.station_id) for e in evs]
                     keys = rpt if name == "lrpt" else [(e.estimated_departure - iface.current_time) - r for e, r in zip(evs, rpt)]
                 ks = sorted(keys)
                 if any(b - a <= 1e-9 * max(1.0, abs(a)) for a, b in zip(ks, ks[1:])):
@@ -141,7 +164,7 @@ class _Fork(Exception):
 
 
 def run_one(d, order=None, cons_order=None, session_order=None, shift=0, fork_at=None, peek=False, rerun=False):
-    watch = TieWatch(unint=bool(d["scheduler"].get("unint")))
+    watch = TieWatch(unint=bool(d["scheduler"].get("unint")), desc=d)
     sch = build.build_scheduler(d, sort_wrapper=watch)
     evs_again = None
     if rerun:
@@ -288,6 +311,8 @@ def run_case(case, obs):
     n, m, k = len(net["stations"]), len(net["constraints"]), len(d["sessions"])
     kind = d["scheduler"]["kind"]
     obs.ev("sched:" + kind)
+    if d.get("huge_demands"):
+        obs.ev("cases_with_astronomically_large_demands")
     base = run_one(d)
     obs.evals = 0
     obs.ev("as_df_accessors_checked")
